@@ -18,6 +18,7 @@ func init() {
 	vrt.Register("C13_cache_key", CacheKey)
 	vrt.Register("C13_map_loop", MapLoop)
 	vrt.Register("C13_faulty_template_repeat", FaultyTemplateRepeat)
+	vrt.Register("C13_after_faulty_parses", AfterFaultyParses)
 	vrt.Register("C13_earlier_renders", EarlierRenders)
 }
 
@@ -321,6 +322,46 @@ var faulty = []string{
 	"ok<%= x %><% if (x) { %>open",
 	"<%= \"unterminated %>",
 	"<%= 1.2.3 %>",
+}
+
+// a template gives the same output or the same error whatever the process has parsed
+// before it, texts that did not parse included (a parser, a table or a flag that
+// outlives a failed parse must not decide about the next text)
+var brokenBefore = []string{
+	"<%= for (x in xs { %><%= x %><% break %><% } %>",
+	"<%= for (x) in xs %>a<% } %>",
+	"<% let f = fn(a { return a } %>",
+	"<%= if (x { %>a<% } %>",
+	"<%= {a: } %>",
+	"<%= for (x) in xs { %><% let g = fn() { %>",
+	"<%# never closed",
+}
+
+var subjects = []string{
+	"a<% break %>b",
+	"<%= if (true) { %>a<% continue %>b<% } %>",
+	"<% let f = fn() { break } %>x",
+	"<%= for (v) in xs { %><%= v %><% break %><% } %>|<% continue %>",
+	"a<%= x %>b",
+	"<%= for (v) in xs { %><%= v %>,<% } %>",
+}
+
+func AfterFaultyParses() {
+	x, y := vrt.Int(), vrt.Int()
+	sub := subjects[vrt.Choice(len(subjects))]
+	vrt.Note("input", sub)
+	run := func() result {
+		o, e := plush.Render(sub, newCtx(x, y, &recorder{}))
+		return result{o, e, nil}
+	}
+	first := run()
+	n := 1 + vrt.Choice(2)
+	for i := 0; i < n; i++ {
+		b := brokenBefore[vrt.Choice(len(brokenBefore))]
+		plush.Render(b, newCtx(x, y, &recorder{})) // whether it is refused is C03's business
+	}
+	same(first, run())
+	vrt.Cover("done")
 }
 
 func FaultyTemplateRepeat() {
